@@ -259,7 +259,10 @@ def visit(
 
                 if result is SKIP or result is False:
                     if not is_leaving:
-                        path_pop()
+                        if path:
+                            path_pop()
+                        if not stack:
+                            break  # the root node itself was skipped
                         continue
 
                 elif result is not None:
@@ -268,7 +271,10 @@ def visit(
                         if isinstance(result, Node):
                             node = result
                         else:
-                            path_pop()
+                            if path:
+                                path_pop()
+                            if not stack:
+                                break  # the root node itself was removed
                             continue
             else:
                 result = None
